@@ -105,6 +105,7 @@ static void accumulate(Agg &a, const Outcome &o)
         a.add("lockset_switches", e.lockset_switches);
         a.add("thread_switches", e.thread_switches);
         a.add("half_isolation_checks", e.iso_checks);
+        a.add("roundtrips_skipped_text_does_not_fit", e.roundtrip_skipped);
         a.add("P_thread_blocked_on_mutex", e.blocked_on_mutex);
         a.add("lines", m.lines);
         a.add("blank_lines", m.blank_lines);
@@ -269,7 +270,7 @@ int main(int argc, char **argv)
                 install_handlers();
                 int reruns = 0;
                 FailPred pred = [&](const Plan &c) { return fails_in_child(prop, c, rule, crash); };
-                Plan m = shrink_plan(p, pred, 1500, &reruns);
+                Plan m = shrink_plan(p, pred, crash ? 400 : 1500, &reruns);
                 plan_save(argv[3], m);
                 printf("SHRUNK ops %zu -> %zu cmds %zu -> %zu reruns %d\n", p.ops.size(), m.ops.size(), p.cmds.size(), m.cmds.size(), reruns);
                 return 0;
@@ -294,9 +295,16 @@ int main(int argc, char **argv)
         std::string hashes_path = outdir + "/hashes." + tag + ".bin";
         FILE *hf = fopen(hashes_path.c_str(), "wb");
         std::vector<std::string> samples;
+        // the index of the run in progress is also kept in a side file: some sanitizer exits do not
+        // reach the death callback that prints the CRASH line
+        int curfd = open((outdir + "/cur." + tag).c_str(), O_CREAT | O_WRONLY | O_TRUNC, 0644);
         for (uint64_t n = 0; n < count; n++) {
                 uint64_t idx = start + n * stride;
                 g_cur_idx = idx;
+                if (curfd >= 0) {
+                        uint64_t rec[2] = {idx, 1};
+                        (void)!pwrite(curfd, rec, sizeof rec, 0);
+                }
                 Plan p = gen_plan(profile, seed, idx, engine_qcap());
                 g_in_run = 1;
                 Outcome o = check_plan(prop, p);
@@ -363,6 +371,11 @@ int main(int argc, char **argv)
         }
         if (hf)
                 fclose(hf);
+        if (curfd >= 0) {
+                uint64_t rec[2] = {0, 0};
+                (void)!pwrite(curfd, rec, sizeof rec, 0);
+                close(curfd);
+        }
         std::string js = "{\"tag\":\"" + tag + "\",\"qcap\":" + std::to_string(engine_qcap()) + ",\"asan\":" + std::to_string((int)engine_asan()) + ",\"violations\":" + std::to_string(nviol) +
                          ",\"other_property_findings\":" + std::to_string(nother) + ",\"nondeterminism\":" + std::to_string(nondet) + ",\"counters\":" + agg_json(agg) + ",\"states\":[";
         bool first = true;
